@@ -54,6 +54,16 @@ func c11Heap(shape string) []gts.Sequence {
 	parts := strings.Split(shape, "/")
 	bshape, tshape, kind := parts[0], parts[1], parts[2]
 	hostRes, guestRes, sibRes := []byte("acgtacgtacgtac"), []byte("GG"), []byte("ttttccccggggaa")
+	extraFeat, resLen := 0, 0
+	if len(parts) > 3 {
+		fmt.Sscan(parts[3], &extraFeat)
+	}
+	if len(parts) > 4 {
+		fmt.Sscan(parts[4], &resLen)
+	}
+	for len(hostRes) < resLen {
+		hostRes = append(hostRes, "acgtnnacgtacgtaacg"[len(hostRes)%18])
+	}
 	var hb, gb, sb []byte
 	switch bshape {
 	case "exact":
@@ -79,6 +89,9 @@ func c11Heap(shape string) []gts.Sequence {
 		{Key: "gene", Loc: gts.Range(2, 6), Props: props},
 		{Key: "CDS", Loc: shared, Props: props},
 		{Key: "misc", Loc: gts.Complemented{Location: shared}, Props: gts.Props{{"note", "m"}}},
+	}
+	for i := 0; i < extraFeat; i++ {
+		hostF = append(hostF, gts.Feature{Key: "gene", Loc: gts.Range(i%10, i%10+3), Props: gts.Props{{"note", fmt.Sprintf("e%d", i)}}})
 	}
 	guestF := []gts.Feature{{Key: "gene", Loc: gts.Range(0, 2), Props: gts.Props{{"note", "guest"}}}}
 	sibF := []gts.Feature{{Key: "gene", Loc: gts.Range(1, 5), Props: gts.Props{{"note", "sib"}}}, {Key: "CDS", Loc: gts.Point(6), Props: gts.Props{{"note", "sib2"}}}}
@@ -278,13 +291,13 @@ func c11Eval(c c11Case) (ok bool, sig, detail string) {
 }
 
 func init() {
-	register(&Check{ID: "C11", Level: "model_checking", Quick: 150 * time.Second, Thor: 30 * time.Minute,
+	register(&Check{ID: "C11", Level: "model_checking", Quick: 300 * time.Second, Thor: 60 * time.Minute,
 		Run: func(r *engine.Run) bool {
 			depth := 2
 			if r.Tier == "thorough" {
 				depth = 3
 			}
-			r.Rule = fmt.Sprintf("every program of 1..%d operations (25 operation kinds x their small argument menus; plus every program one step longer over a 12-operation core menu applied to host, guest or the latest result) over a heap that starts with host, guest and a sibling sharing their buffers, each operation applied to any values already in the heap; x 3 residue-buffer shapes (len==cap, spare capacity, sub-slices of one buffer) x 3 feature-table shapes x {BasicSequence, seqio.GenBank}; invariant on every state: every heap value reads the same as when it entered the heap, and repeating a call gives the same result; distinct key = (shape, program); non-trivial = program touches a shared-buffer shape or has >=2 steps", depth)
+			r.Rule = fmt.Sprintf("every program of 1..%d operations (25 operation kinds x their small argument menus; plus every program one step longer over a 12-operation core menu applied to host, guest or the latest result) over a heap that starts with host, guest and a sibling sharing their buffers, each operation applied to any values already in the heap; x 3 residue-buffer shapes (len==cap, spare capacity, sub-slices of one buffer) x 3 feature-table shapes x {BasicSequence, seqio.GenBank}; plus a size dimension (host table padded with 1..70, ~122, ~250, ~506 extra features; host residues along the size ladder up to 20000 quick / 300000 thorough) under every one-step program and 70 two-step programs; invariant on every state: every heap value reads the same as when it entered the heap, and repeating a call gives the same result; distinct key = (shape, program); non-trivial = program touches a shared-buffer shape or has >=2 steps", depth)
 			var shapes []string
 			for _, b := range []string{"exact", "spare", "sub"} {
 				for _, t := range []string{"exact", "spare", "sub"} {
@@ -366,6 +379,67 @@ func init() {
 					rec3(nil, 3)
 				}
 			}
+			// size dimension: the host table padded to every size 7..76 and around 128/256/512 features, and the host
+			// residues grown along the size ladder; one-step programs over every operation, two-step programs over the core menu
+			var scaleShapes []string
+			{
+				var ks []int
+				for k := 1; k <= 70; k++ {
+					ks = append(ks, k)
+				}
+				ks = append(ks, 121, 122, 123, 249, 250, 251, 505, 506, 507)
+				for _, k := range ks {
+					for _, b := range []string{"exact", "spare", "sub"} {
+						for _, t := range []string{"exact", "spare", "sub"} {
+							kind := "basic"
+							if (k+len(b)+len(t))%3 == 0 {
+								kind = "genbank"
+							}
+							scaleShapes = append(scaleShapes, fmt.Sprintf("%s/%s/%s/%d", b, t, kind, k))
+						}
+					}
+				}
+				maxRes := 20000
+				if r.Tier == "thorough" {
+					maxRes = 300000
+				}
+				for _, n := range engine.Ladder(0, maxRes, 60, 4096) {
+					if n < 15 {
+						continue
+					}
+					for _, b := range []string{"exact", "spare", "sub"} {
+						kind := "basic"
+						if n%2 == 0 {
+							kind = "genbank"
+						}
+						scaleShapes = append(scaleShapes, fmt.Sprintf("%s/spare/%s/0/%d", b, kind, n))
+					}
+				}
+			}
+			var scalePrograms [][]c11Step
+			for _, p := range programs {
+				if len(p) == 1 {
+					scalePrograms = append(scalePrograms, p)
+				}
+			}
+			for _, op1 := range []string{"feature-insert", "insert", "reverse", "rotate", "delete", "concat", "slice-whole"} {
+				for _, op2 := range []string{"feature-insert", "insert", "delete", "with-features", "slice-prefix"} {
+					for p2 := 0; p2 < 2; p2++ {
+						if p2 == 1 && op2 != "feature-insert" {
+							continue
+						}
+						p1 := 0
+						if op1 == "insert" {
+							p1 = 2
+						}
+						// second step on the result of the first, and a second use of the original
+						scalePrograms = append(scalePrograms, []c11Step{{Op: op1, A: 0, B: 1, P: p1}, {Op: op2, A: 3, B: 1, P: p2}},
+							[]c11Step{{Op: op1, A: 0, B: 1, P: p1}, {Op: op2, A: 0, B: 3, P: p2}})
+					}
+				}
+			}
+			r.Extra["scale_shapes"] = len(scaleShapes)
+			r.Extra["scale_programs"] = len(scalePrograms)
 			r.Extra["programs"] = len(programs)
 			r.Extra["shapes"] = len(shapes)
 			r.Extra["depth"] = depth
@@ -389,6 +463,25 @@ func init() {
 					r.Sample(c)
 				}
 			})
+			doneScale := r.ParallelFor(len(scaleShapes)*len(scalePrograms), func(idx int) {
+				c := c11Case{Shape: scaleShapes[idx%len(scaleShapes)], Program: scalePrograms[idx/len(scaleShapes)]}
+				if strings.Count(c.Shape, "/") == 4 && len(c.Program) > 1 && c.Program[1].A != 3 {
+					return // residue-scaled hosts: one-step programs and chains only
+				}
+				r.Evals.Add(1)
+				r.Journal(c)
+				r.Transitions.Add(int64(len(c.Program)))
+				r.States.Add(int64(len(c.Program)))
+				ok, sig, detail := c11Eval(c)
+				r.DistinctByConstruction.Add(1)
+				if !ok {
+					if len(detail) > 700 {
+						detail = detail[:350] + " ... " + detail[len(detail)-300:]
+					}
+					r.Fail(engine.Failure{Sig: sig, Case: c, Detail: detail, Size: 5000 + len(c.Program)*100 + len(c.Shape)})
+				}
+			})
+			done = done && doneScale
 			r.Assumptions = []string{"observability = Bytes(), Info() and Features() (key, location value, qualifiers) of every heap value; panicking operations end the program (their panics are C07/C12 business)"}
 			return done
 		},
